@@ -40,7 +40,7 @@ Definition ec_mismatches (cases : list ecase) : list nat :=
     hanging nor crashing is failing *)
 Definition c19_case_ok (c : ecase) : bool :=
   match ec_go c with
-  | GoPass => session_sound_b (ec_steps c) (ec_chunks c)
+  | GoPass => session_sound_nv_b (ec_steps c) (ec_chunks c)   (* implies session_sound_b; no step vacuous *)
               && negb (never_arrives_b (ec_steps c) (ec_chunks c))
   | GoFail => true
   | GoHang => false
